@@ -1,7 +1,7 @@
 import re
 from copy import deepcopy
 from datetime import date, datetime
-from math import isclose
+from math import isclose, isnan
 from typing import Any, Callable, List, Optional, Type, cast
 from uuid import UUID
 
@@ -165,7 +165,11 @@ class Validator(SchemaVisitor[ValidationResult]):
             return result.add_error(error)
 
         if schema.props.value is not Nil:
-            if schema.props.precision is Nil:
+            if isnan(value) or isnan(schema.props.value):
+                # nan is unequal to itself: a value declared as nan is matched by nan only
+                if not (isnan(value) and isnan(schema.props.value)):
+                    return result.add_error(ValueValidationError(path, value, schema.props.value))
+            elif schema.props.precision is Nil:
                 if not isclose(value, schema.props.value):
                     return result.add_error(ValueValidationError(path, value, schema.props.value))
             else:
